@@ -28,6 +28,7 @@ def run(prog, chk):
                     "restriction to exported glyphs comes after that decision (a map that only names non-exported glyphs still means 'categories are defined': no guessing from anchors) (R18.7)"]
     chk.decided += ["variable cursive / caret anchors: every source that has the anchor contributes its own value at its own location - a master whose anchor happens to equal the default's is still "
                     "pinned (R18.8 = R10.2)"]
+    chk.decided += ["feature-writer objects keep no per-font state outside self.context (no memoising decorators, no attributes written outside __init__): a GDEF / curs writer object reused for a second font must not keep the first font's categories (R18.9 = R08.7)"]
     chk.not_decided += ["the values read back from the compiled GDEF/GPOS", "script direction data (unicodedata)"]
     chk.guard(r181, prog, chk)
     chk.guard(r182, prog, chk)
@@ -37,6 +38,8 @@ def run(prog, chk):
     chk.guard(r187, prog, chk)
     from .c10 import r102
     chk.guard(r102, prog, chk, "R18.8")
+    from .c08 import r087
+    chk.guard(r087, prog, chk, "R18.9")
     from .rounding import check_no_truthiness_on_coordinates
     n = check_no_truthiness_on_coordinates(prog, chk, "R18.6", [GDEFW_MOD, CURS_MOD, "ufo2ft.featureWriters.baseFeatureWriter"])
     need(n >= 20, "truthiness scan found too few tests")
